@@ -11,15 +11,17 @@ from .rules_link import hook_write
 RB = "frg::_redblack::tree_crtp_struct"
 
 MIRROR_RB = [("get_left", "get_right"), ("rotateLeft", "rotateRight"), ("insert_left", "insert_right"),
-             ("predecessor", "successor"), (".left", ".right")]
+             ("predecessor", "successor"), (".left", ".right"),
+             ("::left", "::right"), ("::Left", "::Right"), ("::LEFT", "::RIGHT")]   # enumerators naming a side
 
 
 def mirror(s, pairs):
     """Swap each token pair in s."""
     out = s
     for i, (a, b) in enumerate(pairs):
-        out = re.sub(r"(?<![A-Za-z_])%s(?![A-Za-z_0-9])" % re.escape(a), "\x00%d\x00" % i, out)
-        out = re.sub(r"(?<![A-Za-z_])%s(?![A-Za-z_0-9])" % re.escape(b), a, out)
+        lb = r"(?<![A-Za-z_])" if (a[0].isalnum() or a[0] == "_") else ""
+        out = re.sub(lb + r"%s(?![A-Za-z_0-9])" % re.escape(a), "\x00%d\x00" % i, out)
+        out = re.sub(lb + r"%s(?![A-Za-z_0-9])" % re.escape(b), a, out)
         out = out.replace("\x00%d\x00" % i, b)
     return out
 
@@ -500,6 +502,21 @@ def _check_ordered_insert(g):
         v = flow.sem_eval(cond, val)
         if v is not None and bool(v) != truth:
             return []
+        # a null test of a pointer local whose value is not known yet (`if(next)`, `next != nullptr`, `!next`) is
+        # remembered until the local is assigned again: a cursor advanced under `next != nullptr` cannot leave a
+        # loop that runs `while(next != nullptr)`
+        if v is None:
+            pd, nonnull = None, None
+            if d is not None and d not in bd:
+                pd, nonnull = d, t
+            elif c.kind == "BinaryOperator" and c.op in ("==", "!="):
+                l, r = c.children[0].strip(), c.children[1].strip()
+                for x, y in ((l, r), (r, l)):
+                    if (y.kind == "CXXNullPtrLiteralExpr" or y.get("nullc")) and _local_did(x) is not None and _local_did(x) not in bd:
+                        pd, nonnull = _local_did(x), (t if c.op == "!=" else not t)
+            if pd is not None and pd != newp:
+                bd[pd] = bool(nonnull)
+                return [(vars_, res, tuple(sorted(bd.items())), alias)]
         return [st]
     flow.run(g, [(frozenset(), None, (), ())], transfer, refine, limit=100000)
     return sorted(set(problems))
@@ -1802,6 +1819,9 @@ def check_C08(ctx, unit):
     ctx.rule("P.heap-accessors", "empty() is true exactly when the root is null, top() returns the root, push() on an empty "
              "heap installs the element as root", 3)
     ctx.rule("R.heap-loops", "both loops of _collapse advance", 1)
+    ctx.rule("H.merge-result-kept", "the tree that _merge / _collapse returns is the only handle on the merged heap (either "
+             "operand may have become the child of the other): every call's value is consumed, and in push/pop/remove it "
+             "ends up in _root", 5)
     fns = {}
     for f in unit.functions:
         if f.owner_cls == PH:
@@ -2029,6 +2049,48 @@ def check_C08(ctx, unit):
     check_conditional_snapshot(ctx, "K.conditional-snapshot", [g_ for gs_ in fns.values() for g_ in gs_])
     from .rules_parse import check_loop_progress
     check_loop_progress(ctx, "R.heap-loops", f, None)
+    from .ir import climb
+    STMT_PARENTS = ("CompoundStmt", "IfStmt", "WhileStmt", "ForStmt", "DoStmt", "SwitchStmt", "CaseStmt", "DefaultStmt", "LabelStmt")
+    def _sink(g, n, need_root, depth=0):
+        """(ok, why): where the value of call n goes -- through casts, conditional arms, named locals and outer merges."""
+        e, par = climb(g, n)
+        while par is not None and par.kind == "ConditionalOperator" and par.children and par.children[0].id != e.id:
+            e, par = climb(g, par)
+        if par is None or par.kind in STMT_PARENTS or (par.kind == "BinaryOperator" and par.op == ","):
+            return False, "value is dropped"
+        if not need_root:
+            return True, "value consumed by %s" % par.kind
+        if par.is_call() and par.callee and par.callee["n"] in ("_merge", "_collapse"):
+            return _sink(g, par, need_root, depth + 1) if depth < 6 else (False, "too deep")
+        w = write_of(par)
+        if w and w[0] == ("this", "_root"):
+            return True, "value stored in _root"
+        did = None
+        if par.kind == "DeclStmt":
+            for d in par.get("decls", []):
+                if d.get("init") == e.id or len(par.get("decls", [])) == 1:
+                    did = d["d"]
+        elif par.kind == "BinaryOperator" and par.op == "=" and par.children[0].id != e.id:
+            did = _local_did(par.children[0])
+        if did is not None and depth < 6:
+            uses = [x for x in g.all_nodes() if x.kind == "DeclRefExpr" and x.d.get("d") == did
+                    and not (par.kind == "BinaryOperator" and x.id == par.children[0].strip().id)]
+            for u in uses:
+                ok_, why_ = _sink(g, u, need_root, depth + 1)
+                if ok_:
+                    return True, why_ + " through a local"
+            return False, "held in a local that never reaches _root"
+        if par.kind == "ReturnStmt":
+            return False, "returned instead of stored in _root"
+        return False, "consumed by %s, not stored in _root" % par.kind
+    for name in ("push", "pop", "remove", "_collapse", "_merge"):
+        for g in fns[name]:
+            for n in g.all_nodes():
+                if not (n.is_call() and n.callee and n.callee["n"] in ("_merge", "_collapse") and not n.get("inlined")):
+                    continue
+                ok, why = _sink(g, n, name in ("push", "pop", "remove"))
+                ctx.inst("H.merge-result-kept", "%s::%s: %s #%d" % (PH, name, n.callee["n"], n.id), ok, n.loc,
+                         "%s(...): %s" % (n.callee["n"], why), g)
     f = fns["empty"][0]
     e = Ser(f).expr(f.return_nodes()[0].child("val"))
     ctx.inst("P.heap-accessors", PH + "::empty", e in ("(== this._root null)", "(! this._root)"), f.loc, "returns %s" % e, f)
